@@ -49,7 +49,8 @@ class AsyncRecT(RecT):
 
 
 def _foreign(obj):
-    return {"__not_a_library_object__": type(obj).__name__, "repr": repr(obj)[:200], "ch": {}, "vals": {}, "desc": None, "type": None}
+    return {"__not_a_library_object__": type(obj).__name__, "repr": repr(obj)[:200], "ch": {}, "vals": {}, "desc": None, "type": None,
+            "id": None, "pv": None, "sn": None, "sv": None, "bat": None, "hb": None}
 
 
 def projection(sensors):
